@@ -238,7 +238,7 @@ struct Exec {
       } else if (nm == "swap_cols") {
         if constexpr (SWAPS && !COMP) {
           long a = pick(op.arg(0)), b = pick(op.arg(1)); if (a < 0 || b < 0) { r.skipped(); continue; }
-          if constexpr (ROWS) { if (a != b) { r.count("probe.swap_columns_with_rows"); if (r.kf("C09-KF3")) { r.skipped(); continue; } } }
+          if constexpr (ROWS) { if (a != b) r.count("probe.swap_columns_with_rows"); }
           m.swap_columns((unsigned)a, (unsigned)b); std::swap(cols[(unsigned)a], cols[(unsigned)b]); r.mutated = true; r.count("probe.swap_columns");
         } else { r.skipped(); continue; }
       } else if (nm == "swap_rows") {
